@@ -229,6 +229,110 @@ func ruleC04NullAs(c *Ctx, rule string) {
 		}
 	}
 	c.R.Floor(rule, "stores that add \"null\"", n, 4)
+	// (3) every way of returning a schema passes the test of the pointer flag: a shortcut that returns
+	// before it (a memo, a fast path) hands the pointee's schema to a pointer and rejects its null.
+	if m := c.inferModel(rule); m != nil {
+		var flag *ssa.Phi
+		core.EachInstr(m.fn, func(i ssa.Instruction) {
+			phi, ok := i.(*ssa.Phi)
+			if !ok || !isBoolType(phi.Type()) {
+				return
+			}
+			hasTrue, hasFalse := false, false
+			for _, e := range phi.Edges {
+				if k, ok := e.(*ssa.Const); ok && k.Value != nil {
+					if k.Value.String() == "true" {
+						hasTrue = true
+					} else {
+						hasFalse = true
+					}
+				}
+			}
+			// the flag is set where the subject type is a pointer
+			if hasTrue && hasFalse && flag == nil {
+				for _, g := range controlGuards(phi) {
+					if c.isKindDispatch(g.Cond) {
+						flag = phi
+					}
+				}
+				if flag == nil {
+					// rotated loop: the phi sits in the loop header that tests the kind itself
+					if ifi, ok := phi.Block().Instrs[len(phi.Block().Instrs)-1].(*ssa.If); ok && c.isKindDispatch(ifi.Cond) {
+						flag = phi
+					}
+				}
+			}
+		})
+		if flag == nil {
+			c.R.Unresolved(rule, "the flag recording that the subject type was reached through a pointer")
+			return
+		}
+		tests := map[*ssa.BasicBlock]bool{}
+		for _, b := range m.fn.Blocks {
+			ifi, ok := b.Instrs[len(b.Instrs)-1].(*ssa.If)
+			if !ok {
+				continue
+			}
+			if dependsOnValue(ifi.Cond, flag, 4) {
+				tests[b] = true
+			}
+			// the documented debugging switch (an environment variable) is the one accepted bypass
+			if dependsOnCallNamed(ifi.Cond, []string{"os.Getenv"}, 4) {
+				tests[b] = true
+			}
+		}
+		nret := 0
+		for _, b := range m.fn.Blocks {
+			ret, ok := b.Instrs[len(b.Instrs)-1].(*ssa.Return)
+			if !ok || len(ret.Results) == 0 {
+				continue
+			}
+			r0 := ret.Results[0]
+			if ld, isLd := r0.(*ssa.UnOp); isLd {
+				// results spilled to cells because of the deferred call
+				if cell := resolveCell(ld.X); cell != nil {
+					if st := nearestStore(ret, cell); st != nil {
+						r0 = st.Val
+					}
+				}
+			}
+			if k, isK := r0.(*ssa.Const); isK && k.IsNil() {
+				continue
+			}
+			nret++
+			ok2 := mustPass(flag.Block(), tests, map[*ssa.BasicBlock]bool{b: true})
+			c.R.Check(ok2, rule, fmt.Sprintf("%s:return#%d:passes-pointer-flag-test", core.FuncName(m.fn), nret), c.pos(ret), "every path that returns a schema tests the pointer flag", "a schema is returned on a path that never tests whether the type was reached through a pointer: for *T that path yields T's schema without \"null\", so the JSON encoding of a nil pointer is rejected")
+		}
+		c.R.Floor(rule, "schema-returning exits of the inference function", nret, 2)
+	}
+}
+
+func isBoolType(t types.Type) bool {
+	b, ok := t.Underlying().(*types.Basic)
+	return ok && b.Kind() == types.Bool
+}
+
+// dependsOnValue: v is computed from target through unary/binary operators and phis.
+func dependsOnValue(v, target ssa.Value, depth int) bool {
+	if v == nil || depth == 0 {
+		return false
+	}
+	if v == target {
+		return true
+	}
+	switch x := v.(type) {
+	case *ssa.UnOp:
+		return dependsOnValue(x.X, target, depth-1)
+	case *ssa.BinOp:
+		return dependsOnValue(x.X, target, depth-1) || dependsOnValue(x.Y, target, depth-1)
+	case *ssa.Phi:
+		for _, e := range x.Edges {
+			if dependsOnValue(e, target, depth-1) {
+				return true
+			}
+		}
+	}
+	return false
 }
 
 // sliceLiteralStrings: the constant strings of a []string literal value (and whether it has non-constant parts).
